@@ -353,12 +353,14 @@ pub fn spec_run(shape: &Shape, api: Api, mut decide: impl FnMut(usize, Ph, usize
 }
 
 /// Enumerate every distinct execution (= every per-node decision vector up to
-/// decisions of closures that are never invoked) whose first decision is
-/// `first`, depth-first in option order.  Executions with zero calls are
-/// produced for `first == 0` only.
-pub fn for_each_execution(shape: &Shape, api: Api, first: usize, mut body: impl FnMut(&[Dec], &SpecOut) -> bool) {
+/// decisions of closures that are never invoked) whose first decisions are
+/// `prefix` (option indices), depth-first in option order.  An execution with
+/// fewer invocations than `prefix.len()` is produced only by the prefix whose
+/// unused tail is all zero, so that the prefixes partition the executions.
+pub fn for_each_execution(shape: &Shape, api: Api, prefix: &[usize], mut body: impl FnMut(&[Dec], &SpecOut) -> bool) {
     let opts = api.options();
-    let mut idx: Vec<usize> = vec![first];
+    let floor = prefix.len();
+    let mut idx: Vec<usize> = prefix.to_vec();
     loop {
         let mut decs: Vec<Dec> = Vec::with_capacity(16);
         let out = spec_run(shape, api, |k, _, _| {
@@ -369,8 +371,8 @@ pub fn for_each_execution(shape: &Shape, api: Api, first: usize, mut body: impl 
             decs.push(d);
             d
         });
-        if out.log.is_empty() {
-            if first == 0 {
+        if out.log.len() < floor {
+            if prefix[out.log.len()..].iter().all(|x| *x == 0) {
                 body(&decs, &out);
             }
             return;
@@ -379,17 +381,13 @@ pub fn for_each_execution(shape: &Shape, api: Api, first: usize, mut body: impl 
             return;
         }
         loop {
-            match idx.pop() {
-                None => return,
-                Some(l) => {
-                    if idx.is_empty() {
-                        return; // position 0 is fixed to `first`
-                    }
-                    if l + 1 < opts.len() {
-                        idx.push(l + 1);
-                        break;
-                    }
-                }
+            if idx.len() <= floor {
+                return; // the prefix is fixed
+            }
+            let l = idx.pop().unwrap();
+            if l + 1 < opts.len() {
+                idx.push(l + 1);
+                break;
             }
         }
     }
